@@ -1149,19 +1149,23 @@ func (m *membersPool) MembersLen(node base.Address) int {
 }
 
 func (m *membersPool) Set(member Member) (added bool) {
-	_, _, _ = m.addrs.Set(memberid(member.Addr()), func(_ Member, addrfound bool) (Member, error) {
-		var members []Member
+	id := memberid(member.Addr())
 
+	_, _, _ = m.addrs.Set(id, func(_ Member, addrfound bool) (Member, error) {
 		added = !addrfound
 
-		switch i, f := m.members.Value(member.Address().String()); {
-		case !f, i == nil:
-		default:
-			members = i
-		}
+		_, _, _ = m.members.Set(member.Address().String(), func(members []Member, _ bool) ([]Member, error) {
+			// NOTE the member of the same addr is replaced, not duplicated
+			nmembers := make([]Member, 0, len(members)+1)
 
-		members = append(members, member)
-		m.members.SetValue(member.Address().String(), members)
+			for i := range members {
+				if memberid(members[i].Addr()) != id {
+					nmembers = append(nmembers, members[i])
+				}
+			}
+
+			return append(nmembers, member), nil
+		})
 
 		return member, nil
 	})
